@@ -166,7 +166,7 @@ func (c13) Build(tier string, seed uint64) []any {
 	if th {
 		per = 22
 	}
-	classes := []string{"noise", "altext", "twolevel", "ramp", "checker", "lowent", "runs", "smooth", "impulses", "edges", "const"}
+	classes := []string{"noise", "altext", "bands", "twolevel", "ramp", "checker", "lowent", "runs", "smooth", "impulses", "edges", "const"}
 	sizes := []int{1, 2, 3, 4, 5, 7, 8, 9, 16, 17, 31, 33}
 	k := 0
 	for p := 2; p <= 16; p++ {
@@ -199,6 +199,14 @@ func (c13) Build(tier string, seed uint64) []any {
 					cs = append(cs, c)
 				}
 			}
+		}
+	}
+	// deepest Huffman trees (Fibonacci-distributed categories), both directions
+	for _, p := range []int{8, 16} {
+		for _, sel := range []int{1, 4, 7, 8} {
+			r := gen.Sub(seed, "C13", "fibcat", p*16+sel)
+			cs = append(cs, &c13Case{Gen: "fibcat", Dir: "A", W: 110, H: 75, C: 1, P: p, Sel: sel, Class: "fibcat", CSeed: r.U64()})
+			cs = append(cs, &c13Case{Gen: "fibcat", Dir: "B", W: 110, H: 75, C: 1, P: p, Sel: sel, Class: "fibcat", CSeed: r.U64(), Td: []int{r.Intn(4)}, Table: "optimal", IDs: "std", Extra: "none"})
 		}
 	}
 	return cs
